@@ -1,1 +1,3 @@
 pub mod plan;
+#[cfg(feature = "parallel")]
+pub mod parseq;
